@@ -419,6 +419,83 @@ class _SectionReader:
         return out
 
 
+ATOM_CALLS = {"float": "toFloat", "int": "toInt", "abs": "absVal", "str": "toStr", "bool": "toBool", "tuple": "toTuple", "list": "toList",
+              "np.array": "toArray", "copy.deepcopy": "copy", "max": "clip", "min": "clip", "str.upper": "upper",
+              "_int_or_None": "toIntOrNone", "_float_or_None": "toFloatOrNone"}
+ENUM_NAMES = ("LinkStatus", "MixType", "FlowUnits", "MassUnits", "StatisticsType", "DemandModel")
+
+
+def read_setter_rows():
+    """every property setter of base.py / elements.py and every __setattr__ of options.py: which transformations the ARGUMENT goes
+    through before it is stored (float(), int(), str.upper(), enum coercion, abs, clipping, sorting, ...).  Arithmetic on the
+    argument, or a call this table does not know, is `other` (the Lean table condition then fails and names the setter)."""
+    rows = []
+    for path in ("wntr/network/base.py", "wntr/network/elements.py", "wntr/network/options.py"):
+        tree = ast.parse(open(os.path.join(vlib.REPO, *path.split("/"))).read())
+        for c in [n for n in tree.body if isinstance(n, ast.ClassDef)]:
+            for f in c.body:
+                if not isinstance(f, ast.FunctionDef):
+                    continue
+                is_setter = any(isinstance(d, ast.Attribute) and d.attr == "setter" for d in f.decorator_list)
+                if not (is_setter or f.name == "__setattr__"):
+                    continue
+                param = f.args.args[-1].arg
+                # local names that carry the argument on (x = f(param))
+                carriers = {param}
+                for _ in range(3):
+                    for st in ast.walk(f):
+                        if isinstance(st, ast.Assign) and len(st.targets) == 1 and isinstance(st.targets[0], (ast.Name, ast.Attribute)) \
+                                and any((isinstance(n, ast.Name) and n.id in carriers) or (isinstance(n, ast.Attribute) and ast.unparse(n) in carriers)
+                                        for n in ast.walk(st.value)):
+                            t = st.targets[0]
+                            # an attribute carries the argument on only when it is the one this setter stores (`self._<name>`)
+                            if isinstance(t, ast.Name) or f.name == "__setattr__" or t.attr.lstrip("_") == f.name:
+                                carriers.add(ast.unparse(t))
+                uses = lambda node: any((isinstance(n, ast.Name) and n.id in carriers) or (isinstance(n, ast.Attribute) and ast.unparse(n) in carriers)
+                                        for n in ast.walk(node))
+                atoms, validates = [], False
+                skip = set()
+                for st in ast.walk(f):
+                    if isinstance(st, (ast.Raise, ast.Compare)) or (isinstance(st, ast.Call) and ast.unparse(st.func) in (
+                            "isinstance", "len", "logger.warning", "warnings.warn", "warn", "print", "hasattr", "type")):
+                        validates = validates or isinstance(st, ast.Raise)
+                        skip.update(id(n) for n in ast.walk(st))
+                for st in ast.walk(f):
+                    # what is computed FROM the stored value into another attribute (Tank._head) is not a transformation of it
+                    if isinstance(st, ast.Assign) and isinstance(st.targets[0], ast.Attribute) and ast.unparse(st.targets[0]) not in carriers:
+                        skip.update(id(n) for n in ast.walk(st.value) if isinstance(n, (ast.BinOp, ast.UnaryOp)))
+                for st in ast.walk(f):
+                    if id(st) in skip:
+                        continue
+                    if isinstance(st, ast.Call) and st.args and any(uses(a) for a in st.args):
+                        fn = ast.unparse(st.func)
+                        if fn in ATOM_CALLS:
+                            atoms.append(ATOM_CALLS[fn])
+                        elif fn.split(".")[0] in ENUM_NAMES or fn in ENUM_NAMES:
+                            atoms.append("enumCoerce")
+                        elif fn.startswith("self.") or fn.endswith((".add_usage", ".remove_usage", ".set_curve_type", ".append", ".format", ".factory")):
+                            pass  # registry bookkeeping / delegation to another setter
+                        else:
+                            atoms.append("other")
+                    elif isinstance(st, ast.Call) and isinstance(st.func, ast.Attribute) and uses(st.func.value) and not st.args:
+                        atoms.append({"upper": "upper", "lower": "upper", "sort": "sort", "strip": "upper", "copy": "copy"}.get(st.func.attr, "other"))
+                    elif isinstance(st, ast.Subscript) and isinstance(st.value, ast.Name) and st.value.id in ENUM_NAMES and uses(st.slice):
+                        atoms.append("enumCoerce")
+                    elif isinstance(st, (ast.BinOp, ast.UnaryOp)) and uses(st) and not isinstance(getattr(st, "op", None), ast.Not):
+                        # arithmetic on the argument; `'%s' % value` inside messages was skipped with its Raise
+                        if not (isinstance(st, ast.BinOp) and isinstance(st.op, ast.Mod) and isinstance(st.left, ast.Constant)):
+                            atoms.append("other")
+                    elif isinstance(st, ast.Assign) and not uses(st.value) and isinstance(st.value, (ast.Constant, ast.Attribute)) \
+                            and ((ast.unparse(st.targets[0]).startswith("self._") and is_setter) or ast.unparse(st.targets[0]) == param):
+                        atoms.append("constChoice")  # one of finitely many canonical values is stored (an alias is replaced)
+                seen = []
+                for a in atoms:
+                    if a not in seen:
+                        seen.append(a)
+                rows.append((c.name, f.name if is_setter else "*", seen, validates))
+    return rows
+
+
 def reflect_sections(wntr):
     """emitted keys of the dictionary itself and of a rule / simple control entry; the relation words of Comparison"""
     C = wntr.network.controls
@@ -443,7 +520,7 @@ def reflect_sections(wntr):
     return em, rel
 
 
-def gen_sections_lean(opt_tables, em, model_rows, branches, rel):
+def gen_sections_lean(opt_tables, em, model_rows, branches, rel, setters=None):
     out = ["-- GENERATED by harness/props/c13.py from wntr/network/io.py:from_dict, options.py (ast) and to_dict (reflection). Do not edit.",
            "import WntrModel.Model.SchemaSections", "namespace Wntr.Schema.Gen", "open Wntr.Schema", ""]
 
@@ -484,6 +561,12 @@ def gen_sections_lean(opt_tables, em, model_rows, branches, rel):
         "true" if via else "false", ", ".join(str(i) for i in sb["toks"].get("ta", [])), ", ".join(str(i) for i in sb["toks"].get("cond", []))))
     out.append("")
     out.append("def relRows : List (String × String × String) := [%s]" % ", ".join("(%s, %s, %s)" % (_ls(a), _ls(b), _ls(c)) for a, b, c in rel))
+    out.append("")
+    out.append("/-- property setters of base.py / elements.py and the __setattr__ of the option groups: what the argument goes through -/")
+    out.append("def setterRows : List Setters.SetterRow := [")
+    out.append(",\n".join("  { cls := %s, key := %s, atoms := [%s], validates := %s }" % (_ls(c), _ls(k), ", ".join("." + a for a in atoms), "true" if v else "false")
+                           for (c, k, atoms, v) in (setters or [])))
+    out.append("]")
     out.append("")
     out.append("end Wntr.Schema.Gen")
     return "\n".join(out) + "\n"
@@ -705,11 +788,14 @@ class C13(Check):
         "not faithful (two counterexample theorems = the two known findings) except on the [CONTROLS]-expressible fragment (simple_coded_partial), and which "
         "reader the source has is read by ast (generated_reader_full_iff); appending into a NON-empty model is accepted iff the new names are free in the five "
         "refusing name spaces and then gives the union in order, never overwriting (append_disjoint_is_union, append_ok_iff, append_never_overwrites; "
-        "curves are overwritten in place, name / references / options replaced). The real from_dict / JSON / read_json / append paths are run on generated API-built models "
+        "curves are overwritten in place, name / references / options replaced); the property setters of base.py / elements.py and the __setattr__ of the "
+        "option groups are classified by ast (which of float / int / upper / enum coercion / abs / clipping / sort / ... the argument goes through): none does "
+        "anything but transformations that fix their own image (generated_setters_idempotent), for which the round trip is exact and stable from the "
+        "first cycle on (setters_roundtrip, setters_second_cycle; a non-idempotent setter is a counterexample theorem). The real from_dict / JSON / read_json / append paths are run on generated API-built models "
         "and the example INP files and compared key by key.",
         design_ref="DESIGN.md §5 C13",
-        note="modelled, not verified: attribute values are opaque (the per-type setters/validators of elements.py are exercised by the "
-        "correspondence only); option VALUES go through the groups' __setattr__ validators (exercised by the correspondence, incl. report / graphics / user); "
+        note="modelled, not verified: attribute values are opaque apart from the setter classification (that float / upper / sort / enum coercion are idempotent "
+        "is their Python meaning, executable in Lean only for the numeric ones; the second-cycle oracle checks it on the implementation); option VALUES go through the groups' __setattr__ validators (exercised by the correspondence, incl. report / graphics / user); "
         "numbers in control texts are opaque tokens (Python: float(repr(x)) == x) and time tokens are opaque; SimTimeCondition with repeat / first_time, "
         "TimeOfDayCondition with repeat=False / first_day, RelativeCondition and And/Or inside a simple Control have no text form (not generated); the priority and "
         "registry name of a simple Control are not in the dictionary; a truthiness-guarded "
@@ -738,10 +824,13 @@ class C13(Check):
         sem, rel = reflect_sections(wntr)
         self.branches = sr.control_branches()
         self.simple_via_control_line = any(c.endswith("_read_control_line") for c in self.branches["simple"]["calls"])
+        setters = read_setter_rows()
+        ctx.cov["setters"] = len(setters)
+        ctx.cov["setters_transforming"] = sum(1 for r in setters if r[2])
         ctx.cov["option_groups"] = len(opt_tables) - 1
         ctx.cov["option_fields"] = sum(len(t[1]) for t in opt_tables[1:])
         ctx.cov["simple_reader"] = "coded(_read_control_line)" if self.simple_via_control_line else "repaired(text as written)"
-        vlib.write_if_changed(os.path.join(vlib.GEN, "SchemaSections.lean"), gen_sections_lean(opt_tables, sem, sr.model_rows(), self.branches, rel))
+        vlib.write_if_changed(os.path.join(vlib.GEN, "SchemaSections.lean"), gen_sections_lean(opt_tables, sem, sr.model_rows(), self.branches, rel, setters))
 
     # ---------------------------------------------------------------- cases
     def _cases(self, ctx, wntr):
@@ -874,6 +963,19 @@ class C13(Check):
                                                 "dictionary of the re-created model differs at %s: %r -> %r (path %s)" % (p, old, new, pname),
                                                 {"case": label, "path": pname, "where": p, "observed": new, "expected": old, "spec": sp, "inp": path}))
                     if pname == "dict":
+                        # second cycle (Props/C13Sections setters_second_cycle): every setter / validator is applied to a value it stored
+                        # itself, so re-creating the model from the re-created dictionary must change nothing at all
+                        try:
+                            d3 = wntr.network.to_dict(wntr.network.from_dict(copy.deepcopy(d2)))
+                            dd = G.diff(_empty_names(G.jsonify(d2)), _empty_names(G.jsonify(d3)))
+                            ctx.count("second-cycle:" + ("stable" if not dd else "changes"))
+                            for (pth, x, y) in dd[:3]:
+                                failures.append(Failure("second-cycle-" + re.sub(r"\[[^\]]*\]", "", pth).strip("/").replace("/", "."),
+                                                        "to_dict(from_dict(.)) is not stable on its own output (a setter is not idempotent): %s: %r -> %r" % (pth, x, y),
+                                                        {"case": label, "path": "second-cycle", "where": pth, "observed": y, "expected": x, "spec": sp, "inp": path}))
+                        except Exception as e:
+                            failures.append(Failure("second-cycle-raises-" + type(e).__name__, "from_dict of a dictionary that to_dict(from_dict(d)) produced raises %s: %s" % (type(e).__name__, str(e)[:120]),
+                                                    {"case": label, "path": "second-cycle", "spec": sp, "inp": path, "observed": repr(e)}))
                         # model prediction per element (Lean driver) vs what the implementation did
                         d2j = _empty_names(G.jsonify(d2))
                         for sec in ("nodes", "links", "curves", "patterns", "sources"):
